@@ -161,6 +161,13 @@ fn check_variant(v: &mut Variant, trk: &mut AnyTrk, op: &TOp, out: &TOut, max_id
         _ => {}
     }
     // observations after every step -------------------------------------------------------------
+    // the statistics and the store contents are read FIRST, straight after the operation returned (they are
+    // read from the shard maps directly, without a round trip through the shard workers): an operation that
+    // has returned has taken effect
+    let active = trk.active_stats();
+    let wasted = trk.wasted_stats();
+    let main_dump = trk.dump(false, shards);
+    let wasted_dump = trk.dump(true, shards);
     let m = &v.model;
     for s in [0u64, 1] {
         if trk.epoch(s) != m.epoch(s) {
@@ -183,10 +190,6 @@ fn check_variant(v: &mut Variant, trk: &mut AnyTrk, op: &TOp, out: &TOut, max_id
             );
         }
     }
-    let active = trk.active_stats();
-    let wasted = trk.wasted_stats();
-    let main_dump = trk.dump(false, shards);
-    let wasted_dump = trk.dump(true, shards);
     let main_counts: Vec<usize> = main_dump.iter().map(|x| x.1.len()).collect();
     let wasted_counts: Vec<usize> = wasted_dump.iter().map(|x| x.1.len()).collect();
     if active != main_counts {
